@@ -12,6 +12,10 @@ void harness(void) {
 	__CPROVER_assert(crc32_table[i] == spec_crc32_entry(i), "table entry i is the bit-at-a-time CRC-32 (poly 0xEDB88320) of byte i");
 	__CPROVER_assert(crc32_table[a ^ b] == (crc32_table[a] ^ crc32_table[b]), "byte step is linear: T[a^b] == T[a]^T[b]");
 	__CPROVER_assert((crc32_table[(r ^ byte) & 0xff] ^ (r >> 8)) == spec_crc32_step(r, byte), "one table step == eight bit steps, for every register value and byte");
+	{ uint32_t r2 = nondet_uint(); unsigned char byte2 = nondet_uchar();
+	  __CPROVER_assert((crc32_table[((r ^ r2) ^ (byte ^ byte2)) & 0xff] ^ ((r ^ r2) >> 8)) ==
+		((crc32_table[(r ^ byte) & 0xff] ^ (r >> 8)) ^ (crc32_table[(r2 ^ byte2) & 0xff] ^ (r2 >> 8))),
+		"one table step is linear over GF(2) in (register, byte): step(r^r', b^b') == step(r,b) ^ step(r',b')"); }
 	REACH("table facts evaluated");
 	if (i == 255) REACH("last entry");
 }
@@ -50,5 +54,52 @@ void harness(void) {
 	__CPROVER_assert(whole == 0xCBF43926ul, "check value of the CRC catalogue: CRC-32(\"123456789\") == 0xCBF43926");
 	__CPROVER_assert(KSI_crc32(msg + 4, 5, part) == whole, "continuation: passing the previous result as ival continues the same CRC");
 	REACH("evaluated");
+}
+#endif
+
+#ifdef H_burst
+/* Finite lemmas behind "every burst error of <= 10 bits in a publication (time | imprint | CRC) is detected", on the real
+ * table and the real KSI_crc32 (composition by induction over the length: obligations/C17/NOTES.md, paper steps).
+ * D(x) = KSI_crc32(x) ^ KSI_crc32(0...0) is the change of the CRC caused by the error bytes x (xor-out and initial value cancel,
+ * linearity: C17.crc.table). */
+void harness(void) {
+	uint32_t r = nondet_uint(); unsigned p = nondet_uint(), s = nondet_uint(); unsigned long d;
+	static const unsigned char zero[4] = { 0, 0, 0, 0 }; unsigned char e[4];
+	/* L1: the zero difference stays zero under error-free bytes */
+	__CPROVER_assert(crc32_table[0] == 0, "L1: zero register difference and zero byte difference give a zero difference");
+	/* L2: a non-zero difference stays non-zero under error-free bytes (the zero-byte step is injective) */
+	__CPROVER_assert(IMPLIES(r != 0, (crc32_table[r & 0xff] ^ (r >> 8)) != 0), "L2: a non-zero register difference never becomes zero while error-free bytes follow");
+	/* L3: a non-zero burst of <= 10 contiguous bits, starting anywhere in a byte, leaves a non-zero difference */
+	__CPROVER_assume(p >= 1 && p <= 1023 && s <= 7);
+	{ unsigned long E = ((unsigned long)p << 14) >> s;      /* 24 stream bits, most significant first; the burst starts at bit s of byte 0 */
+	  e[0] = (unsigned char)(E >> 16); e[1] = (unsigned char)(E >> 8); e[2] = (unsigned char)E;
+	  d = KSI_crc32(e, 3, 0) ^ KSI_crc32(zero, 3, 0);
+	  __CPROVER_assert(d != 0, "L3: every non-zero burst of <= 10 bits inside the checked bytes changes the CRC register"); }
+	/* L4: bursts across / next to the border between the checked bytes and the stored CRC (last two checked bytes a0 a1, first
+	 * two CRC bytes t0 t1): the change of the computed CRC differs from the change of the stored one */
+	{ unsigned s4 = nondet_uint(); unsigned long E4, stored;
+	  __CPROVER_assume(s4 <= 31);
+	  E4 = (((unsigned long)p << 22) >> s4) & 0xfffffffful;    /* 32 stream bits a0 a1 t0 t1; bits shifted out at the end fall into CRC bytes 2,3 - see L5 */
+	  e[0] = (unsigned char)(E4 >> 24); e[1] = (unsigned char)(E4 >> 16);
+	  stored = ((E4 >> 8) & 0xff) << 24 | (E4 & 0xff) << 16;
+	  d = KSI_crc32(e, 2, 0) ^ KSI_crc32(zero, 2, 0);
+	  __CPROVER_assert(IMPLIES(s4 <= 22 && E4 != 0, d != stored), "L4: a burst touching the last checked bytes and/or the first CRC bytes makes computed and stored CRC differ"); }
+	/* L5: a burst entirely inside the stored CRC changes the stored value and not the computed one: immediate (0 != non-zero). */
+	REACH("burst lemmas evaluated");
+}
+#endif
+
+#ifdef H_linear_bounded
+#ifndef CRC_N
+#define CRC_N 5
+#endif
+/* the lifting lemma used with C17.crc.burst, on the real function: an error pattern e changes the CRC of ANY message of the
+ * same length by D(e) = crc(e) ^ crc(0..0), independent of the message and of the initial value */
+void harness(void) {
+	unsigned char m[CRC_N], e[CRC_N], me[CRC_N], z[CRC_N]; size_t n = nondet_size(), i; unsigned long iv = nondet_uint();
+	__CPROVER_assume(n <= CRC_N);
+	for (i = 0; i < CRC_N; i++) { me[i] = m[i] ^ e[i]; z[i] = 0; }
+	__CPROVER_assert((KSI_crc32(me, n, iv) ^ KSI_crc32(m, n, iv)) == (KSI_crc32(e, n, 0) ^ KSI_crc32(z, n, 0)), "crc(m ^ e) ^ crc(m) == crc(e) ^ crc(0...0) for every message, error and initial value");
+	REACH("compared"); if (n == CRC_N) REACH("full length");
 }
 #endif
